@@ -119,8 +119,13 @@ def run_config(conf, names, seed, is_quick, findings, counters, records):
     ts = Fraction(*conf["ts"])
     sim_seed = 7 + seed
     quiet()
+    scaled = bool(conf.get("scaled")) and contextual_any
+    scaler = None
+    if scaled:
+        from sklearn.preprocessing import StandardScaler
+        scaler = StandardScaler()
     sim = Simulator(bandits, d, r, c if contextual_any else None, test_size=float(ts), is_ordered=conf["ordered"],
-                    batch_size=conf["batch"], seed=sim_seed, is_quick=is_quick)
+                    batch_size=conf["batch"], seed=sim_seed, is_quick=is_quick, scaler=scaler)
     quiet()
     where = {"conf": conf, "bandits": names, "seed": seed, "is_quick": is_quick}
     try:
@@ -146,36 +151,44 @@ def run_config(conf, names, seed, is_quick, findings, counters, records):
         bname = base_name(name)
         cf = bname in CONTEXT_FREE
         preds, exps = [], []
+        cs = np.asarray(c, dtype=float).copy()
         try:
             for step in conf["script"]:
+                if step["op"] == "scale_fit_on_train":
+                    if scaled:
+                        from sklearn.preprocessing import StandardScaler
+                        own = StandardScaler()
+                        cs[train_idx] = own.fit_transform(np.asarray(c, dtype=float)[train_idx])
+                        cs[test_idx] = own.transform(np.asarray(c, dtype=float)[test_idx])
+                    continue
                 if step["op"] == "fit_train":
                     if cf:
                         ref.fit(d[train_idx], r[train_idx])
                     else:
-                        ref.fit(d[train_idx], r[train_idx], c[train_idx])
+                        ref.fit(d[train_idx], r[train_idx], cs[train_idx])
                     continue
                 rows = [test_idx[i - 1] for i in step["rows"]]
                 if step["op"] == "predict":
                     if bname in DETERMINISTIC and bname in REPLACED:
-                        e = copy.deepcopy(ref).predict_expectations(c[rows])      # stream-neutral reading
+                        e = copy.deepcopy(ref).predict_expectations(cs[rows])      # stream-neutral reading
                         exps.extend(e if isinstance(e, list) else [e])
                     if cf:
                         preds.extend(ref.predict() for _ in rows)
                     else:
-                        p = ref.predict(c[rows])
+                        p = ref.predict(cs[rows])
                         preds.extend(p if isinstance(p, list) else [p])
                 elif step["op"] == "expectations":
                     if cf or bname in REPLACED:
                         continue
-                    e = ref.predict_expectations(c[rows])
+                    e = ref.predict_expectations(cs[rows])
                     exps.extend(e if isinstance(e, list) else [e])
                 elif step["op"] == "partial_fit":
                     if cf:
                         ref.partial_fit(d[rows], r[rows])
                     else:
-                        ref.partial_fit(d[rows], r[rows], c[rows])
+                        ref.partial_fit(d[rows], r[rows], cs[rows])
             if conf["batch"] == 0 and not cf and bname not in REPLACED:
-                e = ref.predict_expectations(c[test_idx])
+                e = ref.predict_expectations(cs[test_idx])
                 exps = e if isinstance(e, list) else [e]
         except Exception as error:  # noqa
             findings.append(_f("replay.exception", "public-API replay of %s raised %s: %s" % (name, type(error).__name__, error), where))
@@ -275,7 +288,7 @@ def validate(records, timeout=900):
     try:
         with os.fdopen(handle, "w") as out:
             json.dump(records, out)
-        result = tlc.run("TraceSim", dict(Ns={4}, TestSizes={(1, 2)}, Batches={0}, Orders={True}), init="TInit", next_="TNext",
+        result = tlc.run("TraceSim", dict(Ns={4}, TestSizes={(1, 2)}, Batches={0}, Orders={True}, Scalers={False}), init="TInit", next_="TNext",
                          view=None, constraint=None, workers=1, timeout=timeout, env={"TRACE_FILE": path})
     finally:
         os.unlink(path)
